@@ -29,3 +29,9 @@ Proof.
   - rewrite firstn_nil. reflexivity.
   - destruct m; [lia|]. destruct k; [reflexivity|]. cbn. apply IH. lia.
 Qed.
+
+Lemma firstn_add_app {A} (l : list A) a b : firstn (a + b) l = firstn a l ++ firstn b (skipn a l).
+Proof.
+  revert l; induction a as [|a IH]; intros l; [reflexivity|].
+  destruct l as [|x l]; [cbn; rewrite firstn_nil; reflexivity|]. cbn. f_equal. apply IH.
+Qed.
